@@ -1170,6 +1170,9 @@ func (tr *FnCtx) call(st *State, c *ssa.CallCommon, instr ssa.Instruction, mode 
 		if fname := fieldFuncName(c.Value); fname != "" {
 			tr.note("call of injected function field " + fname + ": assumed not to modify modelled state")
 			tr.callbackCalls = append(tr.callbackCalls, "field "+fname)
+			// anchor "call field <name>#k": ghost updates/assertions at the call of an injected function field
+			tr.callCount["fld:"+fname]++
+			tr.runAts(st, fmt.Sprintf("%s field %s#%d", modeWord(mode), fname, tr.callCount["fld:"+fname]), nil)
 			r := fresh("cbf")
 			tr.resolveDynamicCall(st, c, args, r)
 			return r
